@@ -66,6 +66,46 @@ def same(a, b):
     return zbool(Num.of(a).same(Num.of(b)))
 
 
+def replay_run(sampler):
+    def replay(model=None):
+        tried = []
+        for (a, b, c) in ((3, 2, 2), (2, 0, 2), (1, 0, 1), (4, 1, 3)):
+            case = {"case": "run_continuation", "sampler": sampler, "a": a, "b": b, "c": c, "seed": 5}
+            nat = native(case)
+            bad = []
+            for prof, r in nat.items():
+                if not isinstance(r, dict) or "first" not in r:
+                    if isinstance(r, dict) and r.get("panic"):
+                        bad.append(prof)
+                    continue
+                f = lambda v: [float(str(x).replace("NaN", "nan")) for x in v]  # noqa: E731
+                first, second, pos = f(r["first"]), f(r["second"]), f(r["pos_after_first"])
+                if sampler == "hmc":
+                    long = f(r["long"])
+                    nch, dim = 3, 2
+                    for ch in range(nch):
+                        row_last = first[(ch * a + a - 1) * dim:(ch * a + a) * dim]
+                        if row_last != pos[ch * dim:(ch + 1) * dim]:
+                            bad.append(prof)
+                        for k in range(a):
+                            if first[(ch * a + k) * dim:(ch * a + k + 1) * dim] != long[(ch * (a + c) + k) * dim:(ch * (a + c) + k + 1) * dim]:
+                                bad.append(prof)
+                        for k in range(c):
+                            if second[(ch * c + k) * dim:(ch * c + k + 1) * dim] != long[(ch * (a + c) + a + k) * dim:(ch * (a + c) + a + k + 1) * dim]:
+                                bad.append(prof)
+                else:
+                    dim = 2
+                    if first[(a - 1) * dim:a * dim] != pos:
+                        bad.append(prof)  # the chain is not left at the last returned state
+                    if second[0:dim] != first[(a - 1) * dim:a * dim]:
+                        bad.append(prof)  # the following run does not start from it
+            tried.append({"case": case, "native": nat})
+            if bad:
+                return True, {"case": case, "native": nat, "reproduced_in": sorted(set(bad))}
+        return False, {"tried": tried[:1]}
+    return replay
+
+
 def c09_runner(out, tier, seed):
     eng = mir_load.load_engine()
     install_chain_overrides(eng)
@@ -160,16 +200,16 @@ def c09_hmc_run(out, tier, seed):
                 continue
             r1, n1, r2, hs, me = res
             inst = "chains=%d n_collect=%d n_discard=%d dim=%d" % (nc, ncol, ndis, dim)
-            u.holds(ctx, "HMC::run returns shape [n_chains, n_collect, dim]", tuple(r1.a.shape) == (nc, ncol, dim), None, inst)
-            u.holds(ctx, "HMC::run performs exactly n_collect + n_discard transitions", n1 == ncol + ndis and len(hs) == 2 * ncol + ndis, None, inst)
+            u.holds(ctx, "HMC::run returns shape [n_chains, n_collect, dim]", tuple(r1.a.shape) == (nc, ncol, dim), replay_run("hmc"), inst)
+            u.holds(ctx, "HMC::run performs exactly n_collect + n_discard transitions", n1 == ncol + ndis and len(hs) == 2 * ncol + ndis, replay_run("hmc"), inst)
             if tuple(r1.a.shape) != (nc, ncol, dim) or len(hs) != 2 * ncol + ndis:
                 continue
             conj = [same(r1.a[c, k, i], hs[ndis + k][c * dim + i]) for c in range(nc) for k in range(ncol) for i in range(dim)]
             u.holds(ctx, "HMC::run: entry (c, k) is chain c's position after exactly n_discard + k + 1 transitions",
-                    z3.And(conj) if conj else True, None, inst)
+                    z3.And(conj) if conj else True, replay_run("hmc"), inst)
             conj = [same(r2.a[c, k, i], hs[ndis + ncol + k][c * dim + i]) for c in range(nc) for k in range(ncol) for i in range(dim)]
             u.holds(ctx, "HMC::run: a following run continues from the sampler's current positions",
-                    z3.And(conj) if conj else True, None, inst)
+                    z3.And(conj) if conj else True, replay_run("hmc"), inst)
     u.done()
 
 
@@ -217,16 +257,16 @@ def c09_nuts_run(out, tier, seed):
                 continue
             p0, r, hs, me = res
             inst = "n_collect=%d n_discard=%d dim=%d" % (ncol, ndis, dim)
-            u.holds(ctx, "NUTSChain::run returns shape [n_collect, dim]", tuple(r.a.shape) == (ncol, dim), None, inst)
+            u.holds(ctx, "NUTSChain::run returns shape [n_collect, dim]", tuple(r.a.shape) == (ncol, dim), replay_run("nuts"), inst)
             u.holds(ctx, "NUTSChain::run performs n_collect + n_discard - 1 transitions (its first kept draw is the last warm-up state)",
-                    len(hs) == ncol + ndis - 1, None, inst)
+                    len(hs) == ncol + ndis - 1, replay_run("nuts"), inst)
             if tuple(r.a.shape) != (ncol, dim) or len(hs) != ncol + ndis - 1:
                 continue
             states = [p0] + hs  # states[t] = position after t transitions
             conj = [same(r.a[k, i], states[ndis + k][i]) for k in range(ncol) for i in range(dim)]
-            u.holds(ctx, "NUTSChain::run: entry k is the state after exactly n_discard + k transitions", z3.And(conj), None, inst)
+            u.holds(ctx, "NUTSChain::run: entry k is the state after exactly n_discard + k transitions", z3.And(conj), replay_run("nuts"), inst)
             u.holds(ctx, "NUTSChain::run leaves the chain at the last returned state",
-                    z3.And([same(a, b) for a, b in zip(vec(me.get("position")), states[-1])]), None, inst)
+                    z3.And([same(a, b) for a, b in zip(vec(me.get("position")), states[-1])]), replay_run("nuts"), inst)
     # NUTS::run = stack of the chains' individual results, in chain order
     eng.overrides = [(p, f) for (p, f) in eng.overrides if "NUTSChain" not in p.pattern]
     tags = {}
@@ -266,6 +306,19 @@ def c09_nuts_run(out, tier, seed):
 # ------------------------------------------------------------------------------------------------
 # C10
 # ------------------------------------------------------------------------------------------------
+def replay_rcp(model=None):
+    tried = []
+    for (ncol, ndis, drop) in ((3, 1, "before"), (2, 0, "before"), (4, 2, "kept"), (1, 0, "before")):
+        case = {"case": "run_chain_progress", "n_collect": ncol, "n_discard": ndis, "receiver": drop}
+        nat = native(case)
+        bad = [p for p, r in nat.items() if isinstance(r, dict) and (r.get("panic") or r.get("ok") is False or r.get("same_as_run") is False
+                                                                      or r.get("steps") != ncol + ndis)]
+        tried.append({"case": case, "native": nat})
+        if bad:
+            return True, {"case": case, "native": nat, "reproduced_in": bad}
+    return False, {"tried": tried}
+
+
 def c10_run_chain_progress(out, tier, seed):
     eng = mir_load.load_engine()
     install_chain_overrides(eng)
@@ -291,20 +344,20 @@ def c10_run_chain_progress(out, tier, seed):
                 continue
             ch, chan, r = res
             inst = "n_collect=%d n_discard=%d dim=%d, %d sends (%s)" % (ncol, ndis, dim, len(chan.sent), "".join("o" if x else "x" for x in chan.results))
-            u.holds(ctx, "progress mode returns Ok whatever the reporter does", r.variant == "Ok", None, inst)
+            u.holds(ctx, "progress mode returns Ok whatever the reporter does", r.variant == "Ok", replay_rcp, inst)
             if r.variant != "Ok":
                 continue
             a = r.fields[0].a
-            u.holds(ctx, "progress mode returns shape [n_collect, dim]", tuple(a.shape) == (ncol, dim), None, inst)
+            u.holds(ctx, "progress mode returns shape [n_collect, dim]", tuple(a.shape) == (ncol, dim), replay_rcp, inst)
             u.holds(ctx, "progress mode performs exactly n_collect + n_discard transitions (a failed send changes nothing)",
-                    ch.k == ncol + ndis, None, inst)
+                    ch.k == ncol + ndis, replay_rcp, inst)
             if tuple(a.shape) == (ncol, dim):
                 conj = [same(a[k, i], ch.hist[ndis + k + 1][i]) for k in range(ncol) for i in range(dim)]
-                u.holds(ctx, "progress mode returns exactly the draws run would return", z3.And(conj), None, inst)
-            u.holds(ctx, "the last transition always reports, so the reporter can see completion", len(chan.sent) >= 1, None, inst)
+                u.holds(ctx, "progress mode returns exactly the draws run would return", z3.And(conj), replay_rcp, inst)
+            u.holds(ctx, "the last transition always reports, so the reporter can see completion", len(chan.sent) >= 1, replay_rcp, inst)
             if chan.sent:
                 last = chan.sent[-1]
-                u.holds(ctx, "the final report carries n = n_collect + n_discard", last.get("n") == ncol + ndis, None, inst)
+                u.holds(ctx, "the final report carries n = n_collect + n_discard", last.get("n") == ncol + ndis, replay_rcp, inst)
     u.done()
 
 
@@ -378,3 +431,116 @@ def replay_precision(name, T, FE):
     nat = native(case)
     bad = [p for p, r in nat.items() if isinstance(r, dict) and (r.get("panic") or r.get("panicked"))]
     return bool(bad), {"case": case, "native": nat, "reproduced_in": bad}
+
+
+def replay_reporter(model=None):
+    tried = []
+    for k in (6, 2, 7):
+        case = {"case": "progress_terminates", "chains": k, "limit_s": 25}
+        nat = native(case)
+        bad = [p for p, r in nat.items() if isinstance(r, dict) and (r.get("timeout") or r.get("panic") or r.get("ok") is False
+                                                                      or r.get("same_draws_as_run") is False)]
+        tried.append({"case": case, "native": nat})
+        if bad:
+            return True, {"case": case, "native": nat, "reproduced_in": bad,
+                          "what": "real run_progress with %d chains hangs / fails / returns other draws than run" % k}
+    return False, {"tried": tried}
+
+
+def c10_reporter(out, tier, seed):
+    """ChainRunner::run_progress as a whole: workers (real run_chain_progress on uninterpreted chains) send their reports, the
+    reporter closure (real code) is executed against every arrival schedule of those reports; it must terminate, only after it
+    has seen every chain finish, and the returned draws must be the workers' draws in chain order."""
+    eng = mir_load.load_engine()
+    install_chain_overrides(eng)
+    cfgs = [(1, 1), (2, 2), (3, 2), (6, 1)] + ([(7, 1), (6, 2), (11, 1)] if tier == "thorough" else [])
+    u = MUnit(out, "C10", "c10_reporter", eng,
+              functions=["ChainRunner::run_progress (+ all closures, incl. the reporter thread's body)", "core::run_chain_progress",
+                         "stats::ChainTracker", "stats::collect_rhat"],
+              bounds=["(chains, latest arrival iteration) in %s: every chain's final report arrives at an arbitrary reporter iteration "
+                      "0..latest (all combinations = completion orders), dim 1, n_collect = 4, n_discard = 1; more chains than the 5 bars "
+                      "are included" % (cfgs,)],
+              assumptions=ASSUME + ["the reporter thread is executed when it is joined (after the workers), which is one legal "
+                                    "interleaving for its input: the arrival schedule of reports is made arbitrary instead",
+                                    "workers report once (clock below the 1 s threshold) and their sends succeed; indicatif is a no-op",
+                                    "RunStats::from summarised"],
+              out_of_scope=["wall-clock time, real scheduling, terminal output", "intermediate (non-final) reports"])
+
+    def summary(e, callee, args):
+        return Struct("RunStats", ["ess", "rhat"], [Opaque("BasicStats"), Opaque("BasicStats")])
+    eng.override(r"^<RunStats as From<.*>>::from$", summary)
+    # clock: constant (no periodic report), sends succeed and enqueue for the reporter
+    eng.override(r"^Instant::now$", lambda e, c, a: Num(0))
+
+    def send(e, callee, args):
+        tx = args[0]
+        while isinstance(tx, Ref):
+            tx = tx.get()
+        ch = tx.fields[0]
+        ch.sent.append(args[1])
+        ch.results.append(True)
+        return Ok(Tuple([]))
+    eng.override(r"^std::sync::mpsc::Sender::<.*>::send$", send)
+    state = {}
+
+    def spawn(e, callee, args):
+        state["reporter"] = args[0]
+        return Struct("JoinHandle", ["closure"], [args[0]])
+
+    def join(e, callee, args):
+        ctx = e.ctx
+        # arrival schedule: fork per chain over 0..latest
+        rxs = state["reporter"].fields[state["reporter"].names.index("rxs")]
+        state["arrival"] = []
+        for rx in rxs.items:
+            ch = rx.fields[0]
+            a = 0
+            for k in range(state["latest"]):
+                if ctx.branch(ctx.fresh_bool("late"), "arrival"):
+                    a += 1
+                else:
+                    break
+            state["arrival"].append(a)
+            ch.queue = [(a, m) for m in ch.sent]
+        ctx.sleeps = 0
+        ctx.sleep_limit = state["latest"] + (len(rxs.items) + 4) // 5 + 2
+        state["chans"] = [rx.fields[0] for rx in rxs.items]
+        e.call_closure(state["reporter"], [])
+        state["iterations"] = ctx.sleeps
+        return Ok(Tuple([]))
+    eng.override(r"^std::thread::spawn::<", spawn)
+    eng.override(r"^JoinHandle::<.*>::join$", join)
+    fn = "ChainRunner::run_progress"
+    for (nc, latest) in cfgs:
+        def run(ctx, nc=nc, latest=latest):
+            state.clear()
+            state["latest"] = latest
+            chains = [SymChain(ctx, c, 1) for c in range(nc)]
+            sampler = Struct("UserSampler", ["chains"], [RVec(chains)])
+            r = eng.call_fn(fn, [Ref.to(sampler), 4, 1])
+            return chains, r, dict(state)
+        n_ok = 0
+        for ctx, res in eng.explore(run, max_paths=6000):
+            u.paths += 1
+            if isinstance(res, mirsym.BoundHit):
+                u.holds(ctx, "the reporter terminates within latest-arrival + ceil(chains/5) + 2 iterations for every completion order",
+                        False, replay_reporter, "chains=%d: %s" % (nc, res))
+                continue
+            if isinstance(res, Exception):
+                u.holds(ctx, "progress mode with a live reporter neither panics nor errs", False, replay_reporter, "chains=%d: %r" % (nc, res))
+                continue
+            chains, r, st = res
+            n_ok += 1
+            inst = "chains=%d arrivals=%s iterations=%s" % (nc, st.get("arrival"), st.get("iterations"))
+            u.holds(ctx, "progress mode with a live reporter neither panics nor errs", r.variant == "Ok", replay_reporter, inst)
+            u.holds(ctx, "the reporter terminates within latest-arrival + ceil(chains/5) + 2 iterations for every completion order",
+                    True, None, inst)
+            if r.variant == "Ok":
+                a = r.fields[0].fields[0].a
+                ok = tuple(a.shape) == (nc, 4, 1)
+                u.holds(ctx, "run_progress returns shape [n_chains, n_collect, dim]", ok, None, inst)
+                if ok:
+                    conj = [same(a[c, k, 0], chains[c].hist[1 + k + 1][0]) for c in range(nc) for k in range(4)]
+                    u.holds(ctx, "run_progress returns exactly the draws run would return, in chain order", z3.And(conj), replay_reporter, inst)
+        u.reached("reporter runs to completion with %d chains" % nc, n_ok)
+    u.done()
